@@ -1,5 +1,20 @@
 package ring
 
+import "math/big"
+
+func vB(x uint64) *big.Int { return new(big.Int).SetUint64(x) }
+
+func vShl64(x uint64) *big.Int { return new(big.Int).Lsh(vB(x), 64) }
+
+func VerifSetup_Ring(n int, moduli []uint64) *Ring {
+	r, err := NewRing(n, moduli)
+	if err != nil {
+		panic(err)
+	}
+	return r
+}
+
+
 // Shared native set-up helpers for the ring-package harnesses (executed natively, results imported).
 
 // VerifSetup_Consts returns {BRedConstant[0], BRedConstant[1], MRedConstant} computed by the real generators.
